@@ -59,6 +59,17 @@ theorem net_symplectic {K : Type} [CommRing K] [DecidableEq K] (registers : List
       (netSpecGU (fun m => (compileGU registers cmds).regs.idxOf m) (compileGU registers cmds).n cmds) :=
   compileGU_net registers cmds hreg hwf
 
+/-- the hypothesis `hreg` (every used mode is a register) cannot be dropped: if a used mode is missing from
+`registers` (this happened to a mode deleted with `Del`, which both compilers accepted as a primitive and
+then ignored) the emitted register list is shorter than the matrix has mode rows.  Since the `fix:` commit
+the compilers raise `CircuitError` for circuits with `New`/`Del` (checked by the oracle), and
+`gaussian_merge` hands the registers of the merged operations to the inner compiler, which makes `hreg`
+true by construction. -/
+theorem net_symplectic_deleted_mode_counterexample :
+    (compileGU [0] [({ regs := [0, 1], op := .blk2 (ident : Mat Int) ident } : GCmd Int)]).n = 2 ∧
+    (compileGU [0] [({ regs := [0, 1], op := .blk2 (ident : Mat Int) ident } : GCmd Int)]).regs = [0] := by
+  decide
+
 /-- **emission.**  The `GaussianTransform` is omitted only when the accumulated matrix is the identity;
 register `ord_reg[i]` gets a `Dgate` carrying `(r[i], r[i+n])` exactly when that pair is non-zero, and
 nothing else is emitted. -/
